@@ -377,6 +377,47 @@ func runC09_2(c *Ctx) {
 			}
 		}
 	})
+	if !(okOrder && stored) && nCopy == 0 {
+		// the other way to write it: append(append(append(make(.., 0, n), left...), middle...), right...)
+		Instrs(refresh, func(i ssa.Instruction) {
+			st, ok := i.(*ssa.Store)
+			if !ok {
+				return
+			}
+			if fr, _, ok := FieldOfAddr(st.Addr); !ok || fr.String() != "pluginSingleContainer.plugins" {
+				return
+			}
+			var sides []string
+			v := st.Val
+			for k := 0; k < 4; k++ {
+				call, isCall := v.(*ssa.Call)
+				if !isCall {
+					break
+				}
+				b, isB := call.Call.Value.(*ssa.Builtin)
+				if !isB || b.Name() != "append" || len(call.Call.Args) != 2 {
+					break
+				}
+				side, okS := sidePlugins(call.Call.Args[1], recv)
+				if !okS {
+					sides = append(sides, "?")
+				} else {
+					sides = append(sides, side)
+				}
+				v = call.Call.Args[0]
+			}
+			mk, isMk := v.(*ssa.MakeSlice)
+			empty := false
+			if isMk {
+				if n, isC := ConstIntOf(mk.Len); isC && n == 0 {
+					empty = true
+				}
+			}
+			if empty && len(sides) == 3 && sides[0] == "right" && sides[1] == "middle" && sides[2] == "left" {
+				okOrder, stored = true, true
+			}
+		})
+	}
 	c.fact("expression-normalisation")
 	c.Check(okOrder && stored, "refresh builds left++middle++right", p.Pos(refresh.Pos()), "copy offsets 0 / |left| / |left|+|middle| with sources left / middle / right; result installed as the effective list",
 		fmt.Sprintf("refresh() does not lay the effective list out as left ++ middle ++ right (offset->source found: %v, installed: %v): hooks fire in the wrong container order", got, stored))
